@@ -834,6 +834,9 @@ func Repeat(env envs.Environment, text *types.XText, count int) types.XValue {
 	if text.Empty() {
 		return types.XTextEmpty
 	}
+	if int64(text.Length())*int64(count) > maxRepeatLength {
+		return types.NewXErrorf("must produce text of at most %d characters", maxRepeatLength)
+	}
 
 	var output bytes.Buffer
 	for j := 0; j < count; j++ {
@@ -967,6 +970,9 @@ func Round(env envs.Environment, num *types.XNumber, places int) types.XValue {
 
 // the cost of rounding grows with the number of places, so they are limited like those of format_number
 const maxRoundingPlaces = 100
+
+// the longest text that repeat produces: a text of two billion characters cannot be held, let alone sent
+const maxRepeatLength = 100000
 
 func checkRoundingPlaces(places int) *types.XError {
 	if places < -maxRoundingPlaces || places > maxRoundingPlaces {
